@@ -158,7 +158,9 @@ def extract_links(repo, version_strings):
     def one(l, sec, prefix, where):
         if type(l) is not RetrieverObjectLink:
             gap(f"{where}: link object of type {type(l).__name__}")
-        if set(vars(l)) != _LINK_FIELDS:
+        # a field the translator does not know is a gap - except additional PRIVATE (underscore) fields: those are
+        # caches / memos by convention; whether they change behaviour is decided by the correspondence run, not here
+        if {f for f in set(vars(l)) ^ _LINK_FIELDS if not (f.startswith("_") and f not in _LINK_FIELDS)}:
             gap(f"{where}: RetrieverObjectLink has fields {sorted(set(vars(l)) ^ _LINK_FIELDS)} the translator does not know")
         section = l.section_name if l.section_name is not None else sec
         d = {"name": l.name, "section": section, "support": None, "callback": None, "dest": None}
@@ -208,7 +210,7 @@ def extract_links(repo, version_strings):
         for gi, l in enumerate(cls._link_list):
             where = f"{n}._link_list[{gi}]"
             if type(l) is RetrieverObjectLinkGroup:
-                if set(vars(l)) != _GROUP_FIELDS:
+                if {f for f in set(vars(l)) ^ _GROUP_FIELDS if not (f.startswith("_") and f not in _GROUP_FIELDS)}:
                     gap(f"{where}: RetrieverObjectLinkGroup has unknown fields {sorted(set(vars(l)) ^ _GROUP_FIELDS)}")
                 if l.section_name is None:
                     gap(f"{where}: group without section")
